@@ -219,6 +219,18 @@ Theorem usvg_validators_agree :
   (forall n, usvg_parse_font_size_ok n = parse_font_size_ok n).
 Proof. repeat split; reflexivity. Qed.
 
+(* the usvg binary's WriteOptions defaults are literals, equal to the help text and to WriteOptions::default() *)
+Theorem usvg_write_defaults :
+  usvg_coordinates_precision_default = 8 /\ usvg_transforms_precision_default = 8 /\
+  usvg_coordinates_precision_help = (2, 8, usvg_coordinates_precision_default) /\
+  usvg_transforms_precision_help = (2, 8, usvg_transforms_precision_default) /\
+  lib_coordinates_precision_default = usvg_coordinates_precision_default /\
+  lib_transforms_precision_default = usvg_transforms_precision_default /\
+  (forall n, usvg_parse_precision_ok n = true <-> 2 <= n <= 8).
+Proof.
+  repeat split; try reflexivity; unfold usvg_parse_precision_ok in *; b2p; lia.
+Qed.
+
 (* ---- process: error => no output --------------------------------------------------------------------- *)
 Lemma steps_write_last : writes_last c20_process_steps = true /\ c20_fallible_after_write = 0.
 Proof. split; vm_compute; reflexivity. Qed.
@@ -298,7 +310,7 @@ Proof.
   intros NE ND X. apply exit0_render in X. destruct X as [sz [T [R _]]]. exists sz. split; [exact T|].
   unfold render_svg in R. rewrite NE, ND in R.
   destruct (fit_to_size (the_fit a) (to_int_size (fst sz) (snd sz))) as [s|]; [|discriminate].
-  destruct (negb (pixmap_new_ok s)); [discriminate|]. inversion R. reflexivity.
+  destruct (negb (canvas_ok e s)); [discriminate|]. inversion R. reflexivity.
 Qed.
 Theorem export_dims a e d : a_export_id a = true -> a_area_page a = false ->
   fst (process a e) = Exit0 (Some d) ->
@@ -308,7 +320,41 @@ Proof.
   unfold render_svg in R. rewrite NE, NP in R. destruct (e_node e) as [| |x y w h]; try discriminate.
   exists x, y, w, h. split; [reflexivity|].
   destruct (fit_to_size (the_fit a) (to_int_size w h)) as [s|]; [|discriminate].
-  destruct (negb (pixmap_new_ok s)); [discriminate|]. inversion R. reflexivity.
+  destruct (negb (canvas_ok e s)); [discriminate|]. inversion R. reflexivity.
+Qed.
+
+(* ---- export rules (as fixed by bd4cb7e and 85fde2f) -------------------------------------------------------- *)
+Lemma to_int_size_pos w h : 0 < is_w (to_int_size w h) /\ 0 < is_h (to_int_size w h).
+Proof. unfold to_int_size; simpl. lia. Qed.
+
+(* without --export-area-page the node is scaled by exactly the factor that maps its integer box onto its canvas *)
+Theorem export_node_fills_canvas a docsize w h size : a_area_page a = false ->
+  fit_to_size (the_fit a) (to_int_size w h) = Some size ->
+  let t := export_ts a docsize w h in let nb := to_int_size w h in
+  (map_x t (zq (is_w nb)) (zq (is_h nb)) == zq (is_w size) /\ map_y t (zq (is_w nb)) (zq (is_h nb)) == zq (is_h size) /\
+   map_x t 0 0 == 0 /\ map_y t 0 0 == 0 /\ t_kx t == 0 /\ t_ky t == 0)%Q.
+Proof.
+  intros AP F. unfold export_ts. rewrite AP. change (export_fit_source false) with SrcNode. cbv iota.
+  destruct (to_int_size_pos w h) as [Pw Ph].
+  apply (fit_transform_matches_size (the_fit a) (to_int_size w h) size Pw Ph F).
+Qed.
+
+(* with --export-area-page the node is scaled like the page (t maps the document box onto the page canvas, no
+   skew, no translation), and it is placed at its SCALED position (x * sx, y * sy) = t (x, y) *)
+Theorem export_area_page_rules a docsize x y w h psize : a_area_page a = true ->
+  fit_to_size (the_fit a) (to_int_size (fst docsize) (snd docsize)) = Some psize ->
+  let t := export_ts a docsize w h in let doc := to_int_size (fst docsize) (snd docsize) in
+  (map_x t (zq (is_w doc)) (zq (is_h doc)) == zq (is_w psize) /\ map_y t (zq (is_w doc)) (zq (is_h doc)) == zq (is_h psize) /\
+   map_x t x y == x * t_sx t /\ map_y t x y == y * t_sy t)%Q /\
+  page_offset a docsize x y w h = (sat_i32 (Qtrunc (x * t_sx t)%Q), sat_i32 (Qtrunc (y * t_sy t)%Q)).
+Proof.
+  intros AP F. unfold page_offset, export_ts. rewrite AP. change (export_fit_source true) with SrcDoc. cbv iota.
+  change c20_page_offset_scaled with true. cbv iota.
+  destruct (to_int_size_pos (fst docsize) (snd docsize)) as [Pw Ph].
+  pose proof (fit_transform_matches_size (the_fit a) _ psize Pw Ph F) as M. cbv zeta in M.
+  destruct M as [M1 [M2 _]]. split; [|reflexivity].
+  split; [exact M1|]. split; [exact M2|].
+  unfold fit_to_transform. rewrite F. unfold map_x, map_y, from_scale, from_row; simpl. split; ring.
 Qed.
 
 (* ---- trimming (as fixed by cbe5ba7) never panics on an empty intersection and never grows the canvas --- *)
@@ -374,17 +420,18 @@ Proof.
   destruct (a_export_id a) eqn:EI.
   - destruct (e_node e) as [| |x y w h]; try discriminate.
     destruct (fit_to_size (the_fit a) (to_int_size w h)) as [size|]; [|discriminate].
-    destruct (negb (pixmap_new_ok size)); [discriminate|].
+    destruct (negb (canvas_ok e size)); [discriminate|].
     destruct (a_area_page a); [|discriminate].
     destruct (fit_to_size (the_fit a) (to_int_size (fst sz) (snd sz))) as [psize|]; [|discriminate].
-    destruct (negb (pixmap_new_ok psize)); discriminate.
+    destruct (negb (canvas_ok e psize)); discriminate.
   - destruct (fit_to_size (the_fit a) (to_int_size (fst sz) (snd sz))) as [size|] eqn:F1; [|discriminate].
-    destruct (negb (pixmap_new_ok size)) eqn:P1; [discriminate|].
+    destruct (negb (canvas_ok e size)) eqn:P1; [discriminate|].
     destruct (a_area_drawing a); [|discriminate].
     unfold trim in R. destruct (e_content e) as [[[x y] w] h].
     destruct (is_h size <=? I32_MAX) eqn:HH; [|reflexivity]. exfalso.
     assert (Wok : 0 < is_w size <= MAX_PIXMAP_W /\ 0 < is_h size <= I32_MAX).
-    { unfold pixmap_new_ok in P1. apply negb_false_iff in P1. apply andb_true_iff in P1. destruct P1 as [P1 P1c].
+    { unfold canvas_ok in P1. apply negb_false_iff in P1. apply andb_true_iff in P1. destruct P1 as [P1 _].
+      unfold pixmap_new_ok in P1. apply andb_true_iff in P1. destruct P1 as [P1 P1c].
       apply andb_true_iff in P1. destruct P1 as [P1a P1b]. apply Z.ltb_lt in P1a, P1b. apply Z.leb_le in P1c, HH. lia. }
     cbv zeta in R. rewrite (limit_rect_ok (is_w size) (is_h size)) in R by lia.
     destruct (q_to_int_rect _ _ _ _); [|discriminate].
@@ -403,12 +450,12 @@ Proof.
   destruct (a_export_id a).
   - destruct (e_node e) as [| |x y w h]; try discriminate.
     destruct (fit_to_size (the_fit a) (to_int_size w h)) as [size|]; [|discriminate].
-    destruct (negb (pixmap_new_ok size)); [discriminate|].
+    destruct (negb (canvas_ok e size)); [discriminate|].
     destruct (a_area_page a); [|discriminate].
     destruct (fit_to_size (the_fit a) (to_int_size (fst sz) (snd sz))) as [psize|]; [|discriminate].
-    destruct (negb (pixmap_new_ok psize)); discriminate.
+    destruct (negb (canvas_ok e psize)); discriminate.
   - destruct (fit_to_size (the_fit a) (to_int_size (fst sz) (snd sz))) as [size|]; [|discriminate].
-    destruct (negb (pixmap_new_ok size)); [discriminate|]. rewrite AD in R. discriminate.
+    destruct (negb (canvas_ok e size)); [discriminate|]. rewrite AD in R. discriminate.
 Qed.
 
 Lemma unwrap_ledger : unwrap_ledger_ok = true.
@@ -431,8 +478,16 @@ Proof. vm_compute. reflexivity. Qed.
 Lemma fixed_stdout_write :
   process (mk_args None None None None true true true false false false false)
           {| e_read_ok := true; e_gunzip_ok := true; e_utf8_ok := true; e_xml_ok := true; e_tree := Some (20 # 1, 10 # 1)%Q; e_ids := 1%nat;
-             e_node := NodeMissing; e_content := (2 # 1, 2 # 1, 5 # 1, 5 # 1)%Q; e_encode_ok := true; e_write_ok := false |}
+             e_node := NodeMissing; e_content := (2 # 1, 2 # 1, 5 # 1, 5 # 1)%Q; e_alloc_ok := true; e_encode_ok := true; e_write_ok := false |}
   = (Exit1 EWrite, false).
+Proof. vm_compute. reflexivity. Qed.
+
+(* resvg -z 100000 on a 40x30 document (F36): the 48 TB buffer cannot be reserved -> exit 1, no output (fix 943ffd6) *)
+Lemma fixed_alloc_abort :
+  process (mk_args None None (Some (100000 # 1)%Q) None true true false false false false false)
+          {| e_read_ok := true; e_gunzip_ok := true; e_utf8_ok := true; e_xml_ok := true; e_tree := Some (40 # 1, 30 # 1)%Q; e_ids := 0%nat;
+             e_node := NodeMissing; e_content := (0, 0, 5 # 1, 5 # 1)%Q; e_alloc_ok := false; e_encode_ok := true; e_write_ok := true |}
+  = (Exit1 ETargetTooLarge, false).
 Proof. vm_compute. reflexivity. Qed.
 
 (* non-vacuity: ordinary runs *)
